@@ -128,13 +128,13 @@ CLAIMED.update({
         technique="property-based testing: differential (switch_ vs per-interval solo run of the branch) between engine runs + lifecycle invariants",
         ref="DESIGN.md §5 C12", note=NOTE_COMMON),
     "C13": dict(
-        text=("Model-based exploration of references: if_then_else (two targets) or if_cmp over cmp_ (three targets) over TS/TSS/TSD/TSB targets (optionally through a nested pass-through) read "
+        text=("Model-based exploration of references: if_then_else (two targets), if_cmp over cmp_ (three targets) or pass-through switch_ branches over TS/TSS/TSD/TSB targets (separate outputs or sibling children of one output) (optionally through a nested pass-through) read "
               "by 1-3 consumers and by a consumer of the reference itself; a model of 'current target' predicts for every cycle whether "
               "each consumer is evaluated, the value it reads, the retarget delta for sets/dictionaries, that re-published selections and "
               "unselected targets cause no evaluation, and that the reference output ticks only on a real selection change. Known finding "
               "F5 (stale removed entries in the retarget delta) is excluded and counted."),
         technique="property-based testing: Hypothesis timing generator + current-target reference model",
-        ref="DESIGN.md §5 C13", note=NOTE_COMMON + " switch_-produced references are not exercised; delta_value() on a sampled rebind is not asserted."),
+        ref="DESIGN.md §5 C13", note=NOTE_COMMON + " REF-typed switch_ outputs and bundles forwarded out of a switch_ are not asserted; delta_value() on a sampled rebind is not asserted."),
 })
 
 CLAIMED.update({
